@@ -82,11 +82,23 @@ def sweep(props, n_max=3, seed=0, samples_per_shape=2, max_runs_per_world=300, i
     found = []
     samples = []
     distinct = set()
-    for n in range(1, n_max + 1):
-        for es in shapes(n):
-            for s in range(samples_per_shape):
-                w = make_world(n, es, rnd, allow_fail=allow_fail, allow_active=allow_active, resources=resources)
-                is_async = rnd.choice(list(is_async_choices))
+    def candidate_worlds():
+        # phase 1 (deterministic): every shape with <= 3 nodes x EVERY assignment of resources, limit 2, no sequential
+        # node, equal priorities -- the mixes of thread / async-thread / main-thread nodes are not left to chance
+        for n in range(2, min(n_max, 3) + 1):
+            for es in shapes(n):
+                for res in itertools.product(resources, repeat=n):
+                    nodes = [dict(id=NAMES[i], deps=[(NAMES[a], []) for a, b in es if b == i], prio=0, seq=False, res=res[i]) for i in range(n)]
+                    yield World(nodes, max_concurrency=2), False
+        # phase 2 (sampled with the seed): random priorities, sequential flags, limits, failing / deactivated nodes
+        for n in range(1, n_max + 1):
+            for es in shapes(n):
+                for s in range(samples_per_shape):
+                    yield make_world(n, es, rnd, allow_fail=allow_fail, allow_active=allow_active, resources=resources), rnd.choice(list(is_async_choices))
+
+    if True:
+        if True:
+            for w, is_async in candidate_worlds():
                 worlds += 1
                 for viol, taken, ctrl, outcome in all_schedules(w, props, is_async, max_runs_per_world):
                     total_runs += 1
